@@ -305,6 +305,7 @@ class Session:
 #   bulk     sp su fill(0..1) tie(bool) [limit]   pre-fill by direct SQL (mirrored with `bulk`)
 #   mark     id term size time(null|offset µs relative to the clock)    mark_uploaded
 #   needs    id term mu mb mt      needs_uploading ; upinfo id term ; cleanup_uploads keep
+#   upinfos  id                    get_upload_infos (the list of get_upload_info over the terminals that hold a record)
 #   marks    ids{"hi":[a,b],"lo":[c,d]} term size step     one mark_uploaded per id (h<<24)|l, h in a..b-1, l in c..d-1, the clock
 #            advancing `step` µs before each; mirrored call by call (model `mark`, ghost arrival), tables compared once at the end
 #   collide  p      probability that gen_random_id is steered onto a taken id for the next gets
@@ -721,6 +722,25 @@ def run_history(drv, case: dict, *, terminal=None, stop_on_first: bool = False) 
                     model = ask(f"upinfo {i} {hxs(op['term'])}")
                     if impl != model:
                         mism("get_upload_info-result", impl, model)
+                    sync(after)
+                    viol(ask("spec_unchanged"))
+                elif kind == "upinfos":
+                    # the read over ALL terminals of an id: one entry per terminal that holds a record of it, each equal to what
+                    # get_upload_info(id, that terminal) gives (model `upinfo`, asked for every terminal the history ever names);
+                    # the order over terminals is not specified
+                    i = ref(op["id"])
+                    if i is None or i < 0:
+                        f.count("skipped-unresolved-ref")
+                        continue
+                    uis = man.get_upload_infos(i)
+                    after = s.dump()
+                    impl = sorted(f"info {ui.id} {hxs(ui.description)} {to_us(ui.upload_time)} {hxs(ui.terminal)} {ui.size} {ui.bytes_ago} {ui.uploads_ago}"
+                                  for ui in uis)
+                    named = sorted({o["term"] for o in ops if isinstance(o.get("term"), str)})
+                    model = sorted(r for r in (ask(f"upinfo {i} {hxs(t)}") for t in named) if r != "none")
+                    f.count("upinfos-entries:" + str(min(len(model), 4)))
+                    if impl != model:
+                        mism("get_upload_infos-result", impl, model)
                     sync(after)
                     viol(ask("spec_unchanged"))
                 elif kind == "needs":
